@@ -157,3 +157,43 @@ func (e *Exec) checkProtected(st *State, fr *Frame, instr ssa.Instruction, addr 
 	e.check(st, fr, class, instr, pr.Field+" accessed without "+pr.Lock+" | "+e.P.srcLine(instr.Pos()), goal)
 	e.curTags = save
 }
+
+// ---- WaitGroup ordering (T-WG Add rule) -------------------------------------------------------
+// `wgorder pkg.Type.field : expr`: a WaitGroup on which another thread waits.
+// Every Add with a positive delta on it must satisfy expr (over `this`, the
+// object holding the field): e.g. "the counter is already positive, or the lock
+// under which the waiter waits is held exclusively" - otherwise the Add is not
+// ordered before a concurrent Wait and the waiter may return too early.
+func (e *Exec) checkWgOrder(st *State, fr *Frame, site ssa.Instruction, wg *Term, delta *Term) {
+	for key, cl := range e.db.wgorders {
+		i := strings.LastIndex(key, ".")
+		tname, fname := key[:i], key[i+1:]
+		pkgPath := pkgGldap
+		if strings.HasPrefix(tname, "testdirectory.") {
+			pkgPath = pkgTD
+		}
+		tn := tname[strings.Index(tname, ".")+1:]
+		obj := e.P.tpkgs[pkgPath].Scope().Lookup(tn)
+		if obj == nil {
+			panic(sperr("wgorder: unknown type %s", tname))
+		}
+		T := obj.Type()
+		idx := fieldIndex(T, fname)
+		if idx < 0 {
+			panic(sperr("wgorder: no field %s in %s", fname, tname))
+		}
+		want := "|" + fieldFa(T, idx) + "|"
+		if wg.Op != want || len(wg.Args) != 1 {
+			continue
+		}
+		ctx := e.newSpecCtx(st, e.P.tpkgs[pkgPath], st.frames[0].entry)
+		ctx.vars["this"] = &specVar{v: wg.Args[0], t: typesPointer(T)}
+		g := Implies(Gt(delta, IntLit(0)), ctx.evalBool(cl.Expr))
+		save := e.curTags
+		e.curTags = []string{"C12", "C15"}
+		e.noAssume = true
+		e.check(st, fr, "WG.add", site, "wgorder "+key+": "+cl.Text+" | "+e.P.srcLine(site.Pos()), g)
+		e.noAssume = false
+		e.curTags = save
+	}
+}
